@@ -4,7 +4,8 @@ Deductive part: the only thread pool is bounded by --max-workers (ghost pool_bou
 file context, results are merged under the codemod's own key, match_files / the registry are order-independent (bounded stand-ins in C05/C17).
 Thread interleavings themselves are outside this family; what makes them harmless is that per-file state lives in per-file objects.  That is
 checked as a syntactic obligation over every class of the two packages (pyvc/framescan.shared_state_obligations): no class attribute holding
-a mutable object is mutated through instances unless __init__ re-binds it.
+a mutable object is mutated through instances unless __init__ re-binds it; and no worker results are consumed in COMPLETION order
+(`as_completed`, `wait`, `imap_unordered`): the pool is read through `executor.map` only.
 """
 META = {
     "explanation": "worker bound and per-file frames are deductive; absence of shared mutable class state is a syntactic scan of all classes",
@@ -17,4 +18,4 @@ def extra_checks(tier="quick", seed=0):
     import codemodder
     from pyvc import framescan
     src = os.path.dirname(os.path.dirname(os.path.abspath(codemodder.__file__)))
-    return framescan.shared_state_obligations(src)
+    return framescan.shared_state_obligations(src) + framescan.completion_order_obligations(src)
